@@ -126,6 +126,13 @@ def build_overlay(work, prop, unit):
     return ov
 
 
+def unit_tags(unit):
+    """build tags of a unit: always 'verif', plus the optional checks.d key "tags" (string or list),
+    e.g. "mosn_debug" for pkg/admin/debug/debug_api.go which is guarded by that tag in the tree"""
+    t = unit.get("tags", [])
+    return ",".join(["verif"] + ([t] if isinstance(t, str) else list(t)))
+
+
 def compile_unit(work, prop, unit, race=False):
     ov = build_overlay(work, prop, unit)
     binp = os.path.join(work, "u_%s%s.test" % (unit["name"], "_race" if race else ""))
@@ -137,7 +144,7 @@ def compile_unit(work, prop, unit, race=False):
     else:
         cwd = REPO
         pkg = "./" + unit["pkg"]
-    cmd = ["go", "test", "-c", "-o", binp, "-overlay", ov, "-tags", "verif", "-vet=off"]
+    cmd = ["go", "test", "-c", "-o", binp, "-overlay", ov, "-tags", unit_tags(unit), "-vet=off"]
     if race:
         cmd.append("-race")
     cmd.append(pkg)
@@ -221,7 +228,7 @@ def warm():
                     pkg = unit.get("extpkg", ".")
                 else:
                     cwd, pkg = REPO, "./" + unit["pkg"]
-                r = subprocess.run(["go", "test", "-c", "-o", os.path.join(work, "w.test"), "-overlay", ov, "-tags", "verif", "-vet=off", pkg],
+                r = subprocess.run(["go", "test", "-c", "-o", os.path.join(work, "w.test"), "-overlay", ov, "-tags", unit_tags(unit), "-vet=off", pkg],
                                    cwd=cwd, env=ENV, capture_output=True, text=True)
                 log("warm %s/%s: %s in %.0fs" % (prop, unit["name"], "ok" if r.returncode == 0 else "FAILED", time.time() - t0))
                 if r.returncode != 0:
